@@ -4,7 +4,7 @@ p=$1; shift
 cd /verif
 export VERIF_EVIDENCE_DIR=/verif/run/seed-evidence   # evidence/ only ever describes the unchanged tree
 git -C /repo apply $p || { echo APPLY-FAILED; exit 2; }
-for id in "$@"; do ./check $id 2>&1 | grep -E "^(OK|VIOLATION|KNOWN|  failing|  broken)" | cut -c1-400 | head -8; done
+for id in "$@"; do ./check $id 2>&1 | grep -E "^(OK|VIOLATION|KNOWN|  failing|  broken)" | cut -c1-400 | head -12; done
 git -C /repo checkout -- . ; git -C /repo status --short | head -3
 # leave lean/GoCrypt/Gen describing the unchanged tree again (it is committed)
 rm -f run/gogen.stamp; ./run/bin/gogen -repo /repo -out lean/GoCrypt/Gen >/dev/null 2>&1
